@@ -29,6 +29,28 @@ class Fault(Exception):
     pass
 
 
+class InjectedAppError(RuntimeError):
+    """an application-level failure (not an OSError) raised from inside a write"""
+
+
+def make_fault(mode, eno, text):
+    """The exception a failing output operation raises.  `mode` is drawn per case: the I/O error itself, an
+    application error, or an interruption that unwinds the stack like any exception (Ctrl-C arriving inside a
+    write, a callback calling sys.exit()) - all of them are 'the generator fails while producing the file'."""
+    if mode == "oserror":
+        return OSError(eno, text + " (injected)")
+    if mode == "app-error":
+        return InjectedAppError(text + " (injected)")
+    if mode == "keyboard-interrupt":
+        return KeyboardInterrupt()
+    if mode == "system-exit":
+        return SystemExit(3)
+    raise AssertionError(mode)
+
+
+FAILURES = (OSError, InjectedAppError, KeyboardInterrupt, SystemExit)
+
+
 class FaultyFile:
     """Wraps the real output file.  op numbering: 0 = open, 1..n = write calls,
     n+1 = the final flush/close.  `plan` = (op, kind) or None."""
@@ -58,12 +80,12 @@ class FaultyFile:
         if plan and plan[0] == h.nwrites:
             if plan[1] == "write-fail":
                 h.fired("write-fail")
-                raise OSError(errno.ENOSPC, "No space left on device (injected)")
+                raise make_fault(h.exc_mode, errno.ENOSPC, "No space left on device")
             if plan[1] == "short-write":
                 h.fired("short-write")
                 self.real.write(s[: len(s) // 2])
                 self.real.flush()
-                raise OSError(errno.ENOSPC, "No space left on device (injected)")
+                raise make_fault(h.exc_mode, errno.ENOSPC, "No space left on device")
         self.real.write(s)
         self.real.flush()
         return len(s)
@@ -88,14 +110,14 @@ class FaultyFile:
                 h.fired(plan[1])
                 self.real.write(data[:max(cut, 0)])
                 self.real.close()
-                raise OSError(errno.EIO, "Input/output error (injected)")
+                raise make_fault(h.exc_mode, errno.EIO, "Input/output error")
             self.real.write(data)
             self.real.close()
             return
         if plan and plan[0] == "close" and plan[1] == "close-fail":
             h.fired("close-fail")
             self.real.close()
-            raise OSError(errno.EIO, "Input/output error (injected)")
+            raise make_fault(h.exc_mode, errno.EIO, "Input/output error")
         self.real.close()
 
     def __getattr__(self, name):
@@ -111,6 +133,7 @@ class Hook:
         self.nwrites = 0
         self.nopens = 0
         self.quiet = False
+        self.exc_mode = "oserror"
 
     def log(self, *a):
         if not self.quiet:
@@ -128,7 +151,7 @@ class Hook:
         self.log("open", os.path.basename(p), mode)
         if self.plan and self.plan[0] == 0:
             self.fired("open-fail")
-            raise OSError(errno.EACCES, "Permission denied (injected)", p)
+            raise make_fault(self.exc_mode, errno.EACCES, "Permission denied")
         return FaultyFile(real_open(file, mode, *args, **kwargs), self)
 
 
@@ -160,7 +183,7 @@ def read(path):
 
 def run(ctx):
     t = ctx.tape
-    which = t.pick(["mm-dot", "model-dot", "mm-pu", "model-dot-multi"], "generator")
+    which = t.pick(["mm-dot", "model-dot", "mm-pu", "model-dot-multi", "custom-gen-file"], "generator")
     gtext, nrules = make_grammar(t)
     preexisting = t.chance(1, 3, "old-file-and-overwrite")
     buffered = t.chance(1, 2, "buffered-io")
@@ -168,6 +191,9 @@ def run(ctx):
     outdir = tempfile.mkdtemp(prefix="tvsim-w6-")
     hook = Hook(ctx, outdir)
     hook.buffered = buffered
+    hook.exc_mode = t.pick(["oserror", "oserror", "app-error", "keyboard-interrupt", "system-exit"], "failure-is")
+    debug = t.chance(1, 3, "generator-called-with-debug")
+    custom_args = {}
     FILE_HOOK[0] = hook
     try:
         mm = metamodel_from_str(gtext, file_name="/sim/w6/lang.tx")
@@ -185,6 +211,33 @@ def run(ctx):
             args = (mm, model, outdir)
             out = os.path.join(outdir, "f0.dot")
             nrules = len(w.files)
+        elif which == "custom-gen-file":
+            # a user's registered generator that writes through textX's helper gen_file(): several chunks, an
+            # explicit flush in between
+            from textx import register_generator
+            from textx.generators import gen_file, get_output_filename
+
+            nchunks = 1 + t.draw(6, "nchunks")
+            model = mm.model_from_str("r0 o0 " + _vals(mm, 0) + " ;")
+            model._tx_filename = "/sim/w6/input.m"
+
+            def user_generator(metamodel, model, output_path, overwrite, debug, **custom):
+                output_file = get_output_filename(model._tx_filename, output_path, "txt")
+
+                def write_it():
+                    with open(output_file, "w", encoding="utf-8") as f:
+                        for i in range(nchunks):
+                            f.write(f"chunk {i} of {nchunks}\n")
+                            if i % 2:
+                                f.flush()
+                        f.write("END\n")
+
+                gen_file(model._tx_filename, output_file, write_it, overwrite)
+
+            register_generator("w6lang", "w6txt", generator=user_generator)
+            gen = generator_for_language_target("W6LANG", "w6TXT")
+            args = (mm, model, outdir)
+            out = os.path.join(outdir, "input.txt")
         elif which == "model-dot":
             nobj = 1 + t.draw(4, "nobjs")
             mtext = " ".join(f"r0 o{i} " + _vals(mm, 0) + " ;" for i in range(nobj))
@@ -201,10 +254,13 @@ def run(ctx):
             gen = generator_for_language_target("textX", "PlantUML")
             args = (None, mm, outdir)
             out = os.path.join(outdir, "lang.pu")
-        ctx.sample = {"generator": which, "rules": nrules, "old_file": preexisting, "io": "buffered" if buffered else "unbuffered"}
+            if t.chance(1, 2, "linetype"):
+                custom_args = {"linetype": t.pick(["ortho", "polyline"], "linetype-v")}
+        ctx.sample = {"generator": which, "rules": nrules, "old_file": preexisting, "io": "buffered" if buffered else "unbuffered",
+                      "failure_is": hook.exc_mode, "debug": debug, "custom_args": custom_args}
 
         def call(overwrite):
-            gen(*args, overwrite, False)
+            gen(*args, overwrite, debug, **custom_args)
 
         # ---- census
         call(False)
@@ -238,12 +294,13 @@ def run(ctx):
             failed = False
             try:
                 call(preexisting)  # overwrite only when an old file is there
-            except OSError:
+            except FAILURES:
                 failed = True
             hook.plan = None
             ctx.ev("point", plan[0], plan[1], failed)
             ctx.stats["crash_points"] += 1
-            cls = f"{which}/{plan[1]}" + ("/old-file" if preexisting else "")
+            cls = f"{which}/{plan[1]}" + ("/old-file" if preexisting else "") + \
+                ("" if hook.exc_mode == "oserror" else "/" + hook.exc_mode) + ("/debug" if debug else "")
             if not failed:
                 ctx.violate("C31", "fault-swallowed", cls, f"injected {plan} did not make the generator fail")
                 continue
@@ -256,7 +313,7 @@ def run(ctx):
             # ---- rerun without --overwrite, no fault
             try:
                 call(False)
-            except OSError as e:
+            except FAILURES as e:
                 ctx.violate("C31", "rerun-fails", cls, f"fault-free rerun failed: {e}")
                 continue
             if not os.path.exists(out):
@@ -268,7 +325,7 @@ def run(ctx):
                                 f"a later run without --overwrite kept a truncated file ({len(content)} of {len(ref)} bytes)")
         ctx.nontrivial = True
         ctx.stats["steps"] += len(points)
-        ctx.sig = [which, nrules, n, len(ref), preexisting, buffered]
+        ctx.sig = [which, nrules, n, len(ref), preexisting, buffered, hook.exc_mode, debug]
     finally:
         FILE_HOOK[0] = None
         shutil.rmtree(outdir, ignore_errors=True)
